@@ -107,6 +107,7 @@ pub(crate) fn types_equal(a: u32, b: u32, types: &PortableRegistry) -> bool {
         &GenericsList::empty(),
         &mut visited,
         types,
+        false,
     )
 }
 
@@ -118,6 +119,7 @@ fn types_equal_inner(
     b_parent_params: &GenericsList,
     visited: &mut HashSet<(u32, u32)>,
     types: &PortableRegistry,
+    compare_generic_args: bool,
 ) -> bool {
     // IDs are the same; types must be identical!
     if a == b {
@@ -141,7 +143,7 @@ fn types_equal_inner(
     // Capture a few variables to avoid some repetition later when we recurse.
     let mut types_equal_recurse =
         |a: u32, a_params: &GenericsList, b: u32, b_params: &GenericsList| -> bool {
-            types_equal_inner(a, a_params, b, b_params, visited, types)
+            types_equal_inner(a, a_params, b, b_params, visited, types, true)
         };
 
     // We'll lazily extend our type params only if the shapes match.
@@ -163,6 +165,27 @@ fn types_equal_inner(
     // Paths differ; types won't be equal then!
     if a_ty.path.segments != b_ty.path.segments {
         return false;
+    }
+
+    // The two top level types may be different instantiations of one generic definition, but types
+    // nested in them must be applied to the same generic arguments (modulo the parents' generics):
+    // `Option<u8>` and `Option<u32>` share path and definition and are still different field types.
+    if compare_generic_args {
+        if a_ty.type_params.len() != b_ty.type_params.len() {
+            return false;
+        }
+        for (a_param, b_param) in a_ty.type_params.iter().zip(b_ty.type_params.iter()) {
+            let args_equal = match (a_param.ty, b_param.ty) {
+                (Some(a_arg), Some(b_arg)) => {
+                    types_equal_recurse(a_arg.id, a_parent_params, b_arg.id, b_parent_params)
+                }
+                (None, None) => true,
+                _ => false,
+            };
+            if !args_equal {
+                return false;
+            }
+        }
     }
 
     #[rustfmt::skip]
